@@ -164,12 +164,13 @@ class Tracker:
         if e == "store":
             st = dict(st)
             val = x.get("val")
-            if val in st and st[val] == "live":
-                lv = x["lv"]
-                if lv[0] != "var":
-                    st[val] = "escaped"          # owned by the structure it is stored into
-                else:
-                    pass                        # a second local name for the same object
+            lv = x["lv"]
+            for obj in list(st):
+                # the object itself, or a conditional between several fresh objects (`t = reverse ? new_a() : new_b()`), stored into a
+                # structure (possibly through a reference to one of several fields): owned by that structure from here on
+                if st[obj] == "live" and (val == obj or (isinstance(val, tuple) and val and val[0] == "cond" and _contains_obj(val, obj))):
+                    if lv[0] != "var":
+                        st[obj] = "escaped"
             return [(st, "fall", None)]
         if e == "return":
             st = dict(st)
@@ -247,16 +248,57 @@ def owned_fields(v, ctor):
 
 
 def releases_in(v, fn, base):
-    """release events of fn over terms rooted at `base` (a sym): {term: [(family, array, count, line)]}"""
+    """release events of fn over terms rooted at `base` (a sym): {term: [(family, array, count, line)]}; RELEASE_GUARDS[(fn usr, term)]
+    holds the conditions under which each release runs"""
+    from .bounds import walk_eff
     eff, st, ex = run_function(v, fn, hooks=Hooks())
     out = {}
-    for x in flat(eff):
+    for x, _loops, guards in walk_eff(eff):
         if x["e"] == "delete":
             out.setdefault(x["val"], []).append(("new", bool(x.get("array")), None, x["l"]))
+            RELEASE_GUARDS.setdefault((fn.usr, x["val"]), []).append(list(guards))
         elif x["e"] == "call":
             rk = release_kind(x["name"])
             if rk:
                 fam, arr, pi, ci = rk
                 if pi < len(x["args"]):
                     out.setdefault(x["args"][pi], []).append((fam, arr, x["args"][ci] if ci is not None else None, x["l"]))
+                    RELEASE_GUARDS.setdefault((fn.usr, x["args"][pi]), []).append(list(guards))
     return out, eff
+
+
+RELEASE_GUARDS = {}
+
+
+def lazily_owned_fields(v, methods):
+    """fields of *this that a method other than the constructor fills with a fresh allocation (tables built on first use), also through a
+    reference to one of several fields (`T *&slot = flag ? a : b; slot = flag ? new_a() : new_b();`) -> {field lvalue: info}"""
+    this = sym.sym("this")
+    owned = {}
+    for m in methods:
+        eff, st, ex = run_function(v, m, hooks=Hooks())
+        allocs = {}
+        for x in flat(eff):
+            if x["e"] == "alloc":
+                allocs[x["obj"]] = {"family": "new", "array": x["how"] == "new[]", "count": x.get("size"), "line": x["l"], "method": m.name,
+                                    "what": "new %s%s" % (x.get("t"), "[%s]" % sym.show(x["size"]) if x.get("size") is not None else "")}
+            elif x["e"] == "call" and x.get("ret") is not None and x["ret"][0] == "obj" and alloc_kind(x["name"]):
+                fam, arr = alloc_kind(x["name"])
+                allocs[x["ret"]] = {"family": fam, "array": arr, "count": x["args"][0] if arr and x["args"] else None, "line": x["l"], "method": m.name,
+                                    "what": "%s(%s)" % (x["name"], ", ".join(sym.show(a) for a in x["args"] if a is not None)[:60])}
+
+        def pairs(lv, val):
+            if lv[0] == "cond" and isinstance(val, tuple) and val[0] == "cond" and lv[1] == val[1]:
+                yield from pairs(lv[2], val[2])
+                yield from pairs(lv[3], val[3])
+            elif lv[0] == "cond":
+                yield from pairs(lv[2], val)
+                yield from pairs(lv[3], val)
+            else:
+                yield lv, val
+        for x in flat(eff):
+            if x["e"] == "store" and x["op"] == "=" and isinstance(x.get("val"), tuple):
+                for lv, val in pairs(x["lv"], x["val"]):
+                    if sym.root_of(lv) == this and val in allocs:
+                        owned[lv] = allocs[val]
+    return owned
